@@ -7,6 +7,7 @@
 From LR Require Import lib.Base model.TmTree model.TmTreeML model.CIndex model.Selector.
 From LR Require Import gen.Consts.
 From LR Require Import proofs.TmTreeP proofs.TmTreeMLP proofs.CIndexP proofs.SelectorP proofs.SelectorInvP proofs.SelectorRunP.
+From LR Require Import proofs.SelectorSelP.
 Open Scope Z_scope.
 
 (* The property as a statement about a variant v of the model: after ANY history of write batches
@@ -114,6 +115,37 @@ Print Assumptions C02_write_after_index_loss_refuted.
 Theorem C02_complete_refuted : ~ C02_complete_statement impl_variant.
 Proof. exact refuted_full. Qed.
 Print Assumptions C02_complete_refuted.
+
+(* ---- a selector that lives across reads (a cached RANGE cursor that is continued): chkSelector caches per chunk
+   the window and the record count it was computed for (model/Selector.v get_chunk_status: recomputed for all
+   chunks when the number of chunks changed, for one chunk when its record count changed). For every variant,
+   every state whose chunk ids increase (index arbitrarily wrong or lost), every range and every session
+   "ask the selector for all windows; write batches (any number, any sizes, any timestamps, following the
+   journal's discipline); ask again; ..." - at EVERY read the continued selector's windows are exactly the
+   windows a fresh selector computes in that state. So what is proved about a fresh read carries over to the
+   windows of a continued one. ---- *)
+Theorem C02_continued_selector : forall v t1 t2 st hs,
+  inc_ids (ids_of (p_chunks st)) -> sess_disc (ids_of (p_chunks st)) hs -> session_ok false v t1 t2 st [] hs.
+Proof. exact continued_selector_fresh. Qed.
+Print Assumptions C02_continued_selector.
+
+(* a refresh that leaves a window whose upper position is not limited alone ("appended records can move the
+   upper position only") is wrong: the window "whole chunk out of range" is [MaxUint32..MaxUint32] and stays
+   closed. Chunk with ts 1..10, RANGE [100:200], then 5 x ts 150 appended to the same chunk *)
+Theorem C02_continued_selector_out_stays_out_refuted :
+  exists st hs, inc_ids (ids_of (p_chunks st)) /\ sess_disc (ids_of (p_chunks st)) hs /\
+    ~ session_ok true impl_variant 100 200 st [] hs.
+Proof. exists lazy_wit_st, lazy_wit_hs. exact lazy_refuted. Qed.
+Print Assumptions C02_continued_selector_out_stays_out_refuted.
+
+(* non-vacuity of C02_continued_selector: in that session the code's selector does refresh: the window goes from
+   "out of range" to [9..MaxUint32] *)
+Example C02_continued_selector_nonvacuous :
+  session_ok false impl_variant 100 200 lazy_wit_st [] lazy_wit_hs /\
+  fresh_windows impl_variant 100 200 lazy_wit_st = [Some (mkst max_uint32 max_uint32 10)] /\
+  fresh_windows impl_variant 100 200 (fold_left (step impl_variant) [HBatch [mkseg 1 false (repeat 150 5)]] lazy_wit_st)
+    = [Some (mkst 9 max_uint32 15)].
+Proof. exact lazy_wit_nonvac. Qed.
 
 (* ---- the multi-level block tree (model/TmTreeML.v, compared with real ckindex trees of up to 3 levels on every
    run) has the three properties of the flat record list that the proofs above use: on a well-formed tree of ANY
